@@ -29,11 +29,16 @@ DEFAULT_CFG = dict(
 )
 
 
+GLOBAL_OVERRIDES = {}
+CHEAP_BIN = ["ADD", "SUB", "LT", "GT", "SLT", "SGT", "EQ", "AND", "OR", "XOR", "BYTE", "SHL", "SHR", "SAR", "SIGNEXTEND"]
+
+
 class Gen:
     def __init__(self, rng, **cfg):
         self.r = rng
         self.c = dict(DEFAULT_CFG)
         self.c.update(cfg)
+        self.c.update(GLOBAL_OVERRIDES)  # e.g. {"bin_ops": CHEAP_BIN} for solver-unbounded configurations
         self.lbl = 0
         self.nout = 0
         self.features = set()
@@ -111,7 +116,7 @@ class Gen:
         if k < 0.12:
             t, s = self.expr(d - 1)
             return t + [r.choice(UN)], s
-        if k < 0.18:
+        if k < 0.18 and not self.c.get("bin_ops"):
             a, sa = self.expr(d - 1)
             b, sb = self.expr(d - 1)
             n, sn = self.expr(d - 1)
@@ -122,7 +127,7 @@ class Gen:
             self.features.add("sha3")
             size = r.choice([32, 64, 0, 1, 33])
             return a + [0x00, "MSTORE", size, 0x00, "SHA3"], True
-        op = r.choice(BIN)
+        op = r.choice(self.c.get("bin_ops") or BIN)
         b, sb = self.expr(d - 1)
         a, sa = self.expr(d - 1)
         if op == "SIGNEXTEND":
